@@ -1109,13 +1109,20 @@ def expr_fn(
         return parse_binary_or(tok)
 
     tok = get_token()
-    ret = parse_expr(tok)
-    if isinstance(ret, str):
-        return ret
-    if isinstance(ret, float):
-        if ret == math.floor(ret):
-            return str(int(ret))
-    return str(ret)
+    try:
+        ret = parse_expr(tok)
+        if isinstance(ret, str):
+            return ret
+        if isinstance(ret, float):
+            if ret == math.floor(ret):
+                return str(int(ret))
+        return str(ret)
+    except (ArithmeticError, ValueError, TypeError) as e:
+        # Domain, overflow and similar errors from the operators, e.g.
+        # "ln 0", "exp 1000", "2 round 1.5", "0 ^ -1", "10 ^ 400"
+        return '<strong class="error">Expression error: {}</strong>'.format(
+            html.escape(str(e))
+        )
 
 
 def padleft_fn(
